@@ -5,7 +5,7 @@ import os, re, sys
 src = sys.argv[1] if len(sys.argv) > 1 else "/tmp/near_eval8.txt"
 rows = {}
 for l in open(src):
-    m = re.match(r"(C\d\d-[ew]\d): (?:silent on all 20|(C\d\d) -> \((\d),)", l)
+    m = re.match(r"(C\d\d-[ewa]\d): (?:silent on all 20|(C\d\d) -> \((\d),)", l)
     if not m:
         continue
     tw = m.group(1)
